@@ -7,7 +7,7 @@
    last entry wins) if the topic's error class stores them; [last_addr id bs] is the address the last entry
    for broker id gives in the response's broker list. *)
 From Coq Require Import List ZArith Sorted.
-From SV Require Import Gen.GoInt Gen.DecTypes Gen.DecTypes2 Gen.DecC15 C15.Model C15.ProofsView C15.ProofsRefresh C15.ProofsAtomic C15.ProofsTie.
+From SV Require Import Gen.GoInt Gen.DecTypes Gen.DecTypes2 Gen.DecC15 C15.Model C15.ProofsView C15.ProofsRefresh C15.ProofsDeadline C15.ProofsAtomic C15.ProofsTie.
 Import ListNotations.
 Open Scope Z_scope.
 
@@ -158,3 +158,30 @@ Theorem c15_tie_update_broker : forall (enc : Z -> String.string),
   represents enc (fst (update_broker zm (go_list enc bs))) (update_brokers bs m).
 Proof. exact tie_update_broker. Qed.
 Print Assumptions c15_tie_update_broker.
+
+(* With Metadata.Timeout set the deadline is an environment event ([dl] answers the successive pastDeadline
+   tests). EVERY exit of a refresh — success, authentication failure, out of brokers, past the deadline with a
+   candidate left, past the deadline with nobody left — keeps every seed the client was given (in the seed list
+   or set aside), and never returns with nobody to ask while seeds are still set aside. *)
+Theorem c15_refresh_every_exit_resurrects : forall answer attempts c tried dl c' r tr dl',
+  refresh_d answer attempts c tried dl = (c', r, tr, dl') ->
+  same_elements (seedset c') (seedset c) /\ (any c' = None -> dead c' = []).
+Proof. exact refresh_d_exits. Qed.
+Print Assumptions c15_refresh_every_exit_resurrects.
+
+(* so the refresh after a give-up that left nothing set aside asks every seed again and succeeds if one answers *)
+Theorem c15_refresh_after_give_up : forall answer1 attempts1 c tried dl c' r tr dl',
+  refresh_d answer1 attempts1 c tried dl = (c', r, tr, dl') ->
+  dead c' = [] ->
+  forall answer2 attempts2,
+  (exists b, In b (seedset c ++ known c') /\ answer2 b = Answers) ->
+  (forall b, In b (seedset c ++ known c') -> answer2 b <> AuthFails) ->
+  exists c'' b failed, refresh answer2 attempts2 c' [] = (c'', RSuccess b, failed ++ [b]) /\ answer2 b = Answers.
+Proof. exact refresh_after_give_up. Qed.
+Print Assumptions c15_refresh_after_give_up.
+
+(* without a deadline (Metadata.Timeout unset) this is the iteration the theorems above speak about *)
+Theorem c15_refresh_no_deadline : forall answer attempts c tried,
+  refresh_d answer attempts c tried [] = let '(c', r, tr) := refresh answer attempts c tried in (c', r, tr, []).
+Proof. exact refresh_d_nil. Qed.
+Print Assumptions c15_refresh_no_deadline.
